@@ -179,6 +179,13 @@ class Dec:
 
     def p_cmp(self):
         t = self.p_unary()
+        for op, fn in (("<=", "Z.leb"), ("<", "Z.ltb")):
+            if self.s.startswith(op, self.i):
+                self.i += len(op)
+                u = self.p_unary()
+                if t[1] != "Z" or u[1] != "Z":
+                    self.fail("ordering of %s and %s" % (t[1], u[1]))
+                return ("(%s %s %s)" % (fn, t[0], u[0]), "bool")
         for op in ("==", "!="):
             if self.s.startswith(op, self.i):
                 self.i += 2
@@ -434,6 +441,26 @@ def facts():
     decision("cache_match", "(new old : record)",
              "(orb (andb (andb (r_flush new) (bs_eqb (r_name old) (r_name new))) (N.eqb (r_type old) (r_type new))) (record_eqb old new))",
              cache_match)
+
+    def cache_rearm():
+        # the tail of addRecord: when is the single-shot timer (re)started for the new record's first trigger
+        b = add_body()
+        k = b.rindex("if")
+        cond = nth_cond(b[k:], "if", 0)
+        v = {"d->nextTrigger.isNull()": ("next_null", "bool"), "d->nextTrigger": ("next", "Z"),
+             "triggers.at(0)": ("first", "Z"), "now": ("now", "Z")}
+        return Dec(cond, v).parse()
+
+    decision("cache_rearm", "(next_null : bool) (first next now : Z)", "(orb next_null (Z.ltb first next))", cache_rearm)
+
+    def cache_passed():
+        # onTimeout: a trigger counts as reached when ...
+        b = func_body(cache, r"void\s+CachePrivate::onTimeout\s*\(")
+        k = [m.start() for m in re.finditer(r"\bfor\s*\(", b)][1]
+        cond = nth_cond(b[k:], "if", 0)
+        return Dec(cond, {"(*j)": ("trigger", "Z"), "*j": ("trigger", "Z"), "now": ("now", "Z")}).parse()
+
+    decision("cache_trigger_passed", "(trigger now : Z)", "(Z.leb trigger now)", cache_passed)
 
     def cache_lookup():
         b = func_body(cache, r"bool\s+Cache::lookupRecords\s*\(")
